@@ -107,9 +107,16 @@ P = {
        "fromString_toString for every raw value incl. Min (through the wrap-around) and every configuration of the regenerated "
        "table, comma and with-sign forms parse back, fromString_literal (every plain literal with at least one digit whose "
        "truncated value is representable gives that value truncated to D places), fromString_total (no panic on any byte "
-       "string), checkedAs_int_iff and as_eq_checkedAs. ~275k lines per quick run over all 16 configurations of both types.",
-  note="float-target CheckedAs/As and exponent literals are outside the model: judged by an implementation-side oracle built "
-       "from big.Rat and strconv (two-sided: succeeds iff the nearest float's shortest decimal is the number's own text); "
+       "string), checkedAs_int_iff and as_eq_checkedAs; the dispatch (the float detour of FromString is taken iff the text contains e/E: "
+       "fromString_exp_iff(128), literal_never_float_path, renderings_never_float_path); float-target CheckedAs reduced to a "
+       "named contract of strconv.ParseFloat/FormatFloat (checkedAs_float_iff64, checkedAs_float_sound128, "
+       "checkedAs_float_iff128 under quo_nearest, as_eq_checkedAs_float). ~275k lines per quick run over all 16 configurations "
+       "of both types.",
+  note="float-target CheckedAs: the theorems take strconv's contract (ParseFloat correctly rounded, FormatFloat(-1) shortest "
+       "round trip) and, for f128 completeness, the big.Float quotient being the nearest float as NAMED HYPOTHESES; the clause "
+       "is additionally judged end to end by an implementation-side oracle built from big.Rat and strconv (two-sided: succeeds "
+       "iff the nearest float's shortest decimal is the number's own text); exponent literals are not plain literals (Appendix "
+       "B) and stay outside the model (exp oracle: no panic, FromString = From(ParseFloat), entry points agree); "
        "encoding/json and yaml.v3 round trips are an identity oracle; literals whose value is not representable wrap (f64) or "
        "saturate (f128) and are compared model-vs-code only (reading, Appendix B); f64 CheckedAs to unsigned targets accepts "
        "negative whole numbers because converting back yields the original (transcribed, not alarmed).",
